@@ -73,20 +73,19 @@ func handleZADD(params internal.HandlerFuncParams) ([]byte, error) {
 			return nil, errors.New("invalid score in score/member list")
 		case string:
 			var s float64
-			if strings.ToLower(score.(string)) == "-inf" {
+			switch strings.ToLower(score.(string)) {
+			case "-inf":
 				s = math.Inf(-1)
-				members = append(members, MemberParam{
-					Value: Value(params.Command[membersStartIndex:][i+1]),
-					Score: Score(s),
-				})
-			}
-			if strings.ToLower(score.(string)) == "+inf" {
+			case "+inf":
 				s = math.Inf(1)
-				members = append(members, MemberParam{
-					Value: Value(params.Command[membersStartIndex:][i+1]),
-					Score: Score(s),
-				})
+			default:
+				// Not a number: reject the command instead of silently dropping the pair
+				return nil, errors.New("invalid score in score/member list")
 			}
+			members = append(members, MemberParam{
+				Value: Value(params.Command[membersStartIndex:][i+1]),
+				Score: Score(s),
+			})
 		case float64:
 			s, _ := score.(float64)
 			members = append(members, MemberParam{
